@@ -1,2 +1,97 @@
+import SdnsVerif.Model.Nsec
+/-
+Decision-logic model of where a validated denial may become SHARED state:
+
+* `Resolver.authority` (middleware/resolver/resolver.go): which validator
+  outcomes lead to an accepted response, to AD, to a provenance mark and to
+  `Aggressive = true`;
+* `cache.ResponseWriter.WriteMsg` / the prefetch write-back
+  (middleware/cache/cache.go, prefetch_queue.go): when `RecordDenialProof`
+  and `RecordNXDomainCut` are reached;
+* `denialProofEvaluate` (middleware/cache/denial_proof_cache.go): what a
+  classifier error means on the synthesis side.
+Core Lean only.
+-/
 namespace SdnsVerif.Model.Admission
+open SdnsVerif.Model.Nsec
+
+/-! ### cache.ResponseWriter.WriteMsg -/
+
+/-- one response reaching the cache's response writer. -/
+structure WriteIn where
+  reqCD : Bool    -- the client request had CD=1            (rw.requestCD)
+  respCD : Bool   -- the response has CD=1                   (res.CheckingDisabled)
+  ecs : Bool      -- the client request carried ECS          (rw.requestHasECS; the tree then bypasses shared denial)
+  hasScope : Bool   -- an ECS cache scope was derived          (rw.clientScope.IsValid())
+  marked : Bool   -- the resolver marked a response in this request tree
+  copied : Bool   -- … but what is written is another dns.Msg (a copy)
+  kind : Nat      -- 0 = legacy mark without proof family, 1 = NSEC, 2 = NSEC3
+  agg : Bool      -- ValidatedNegativeProof.Aggressive
+  fam : Nat       -- record family actually in the authority section: 1 NSEC, 2 NSEC3
+  nx : Bool       -- the proof is an NXDOMAIN (else NODATA)
+  optout : Bool   -- an in-zone NSEC3 of the proof has the Opt-Out flag
+deriving Repr, DecidableEq
+
+/-- `middleware.ValidatedNegativeProofForResponse`: provenance is bound to the
+exact response pointer. -/
+def provenance (i : WriteIn) : Option (Nat × Bool) :=
+  if i.marked && !i.copied then some (i.kind, if i.kind = 0 then false else i.agg) else none
+
+/-- the `if` around RecordDenialProof / RecordNXDomainCut in WriteMsg. -/
+def admitted (i : WriteIn) : Bool :=
+  !i.hasScope && !i.ecs && !i.reqCD && !i.respCD &&
+  match provenance i with
+  | some (_, a) => a
+  | none => false
+
+/-- `Store.RecordDenialProof` is reached and keeps the bundle: the retained
+record family must be the provenance's proof kind. -/
+def proofRecorded (i : WriteIn) : Bool := admitted i && (i.kind == 1 || i.kind == 2) && i.fam == i.kind
+
+/-- `Store.RecordNXDomainCut` is reached and `nxDomainCutProof` keeps it:
+NXDOMAIN only, never over an Opt-Out span. -/
+def cutRecorded (i : WriteIn) : Bool := admitted i && i.nx && !(i.fam == 2 && i.optout)
+
+/-! ### Resolver.authority, negative branch (r.dnssec && verified) -/
+
+inductive Family | nsec | nsec3
+deriving Repr, DecidableEq
+
+/-- what authority() does with one negative response whose RRSIGs verified. -/
+structure AuthOut where
+  servfail : Bool      -- `return nil, err`
+  ad : Bool            -- resp.AuthenticatedData
+  marked : Bool        -- MarkValidatedNegativeProofResponse reached
+  aggressive : Bool    -- … with Aggressive = true
+deriving Repr, DecidableEq
+
+/-- `exact`: verdict of the exact validator (`ok secure`); `agg`: verdict of the
+RFC 8198 evaluator on the same records (`ok rcode`); `respNX`: the response's
+RCODE is NXDOMAIN; `reqCD`: the request had CD=1 (then authority() skips all of
+this; modelled as "no AD, no mark"). -/
+def authority (fam : Family) (exact : Except Err Bool) (agg : Except Err Rcode) (respNX reqCD : Bool) : AuthOut :=
+  if reqCD then { servfail := false, ad := false, marked := false, aggressive := false } else
+  match exact with
+  | .error _ => { servfail := true, ad := false, marked := false, aggressive := false }
+  | .ok secure =>
+    -- NSEC3: the evaluator is only consulted when the exact proof is secure
+    let consulted := match fam with | .nsec => true | .nsec3 => secure
+    let eligible := consulted && (match agg with
+      | .ok rc => (rc == Rcode.nxdomain) == respNX
+      | .error _ => false)
+    { servfail := false, ad := secure, marked := secure, aggressive := secure && eligible }
+
+/-! ### synthesis side -/
+
+inductive Synth | nxdomain | nodata | miss
+deriving Repr, DecidableEq
+
+/-- `denialProofEvaluate`: only `err == nil` synthesises; every error is a miss
+(the request goes on to ordinary resolution). -/
+def synth (r : Except Err (Rcode × List Nat)) : Synth :=
+  match r with
+  | .ok (.nxdomain, _) => .nxdomain
+  | .ok (.nodata, _) => .nodata
+  | .error _ => .miss
+
 end SdnsVerif.Model.Admission
